@@ -1,6 +1,8 @@
 import Ruint.Lemmas.FacadeC
 import Ruint.Lemmas.GenBinOps
 import Ruint.Gen.WordsFacade
+import Ruint.Gen.WordsConv
+import Ruint.Gen.WordsConv2
 
 /-!
 # C20 — operator, wrapper and trait facades agree with the inherent methods
@@ -181,7 +183,7 @@ theorem gen_bin_op_shapes (f bits L : Nat) (a b : List Nat) :
 /-! ## The num-traits / num-integer impls as regenerated from the source (G)
 
 `Gen/WordsFacade.lean` holds one definition per method of every `impl … Trait for Uint<BITS, LIMBS>` block of
-`src/support/num_traits.rs` and `src/support/num_integer.rs` that lies in the translated subset (54 methods; the file lists the
+`src/support/num_traits.rs` and `src/support/num_integer.rs` that lies in the translated subset (62 methods; the file lists the
 others). The theorems below state what each body is: the inherent method of the same meaning, applied to the same arguments in
 the same order (`*_forwarders`), the same with the panic of the inherent method passed on (`*_panicking_forwarders`: `none` =
 panic), with the `usize → u32` cast of the counting methods (`*_counts`), or a fixed small expression (`*_constants_and_steps`).
@@ -268,5 +270,37 @@ theorem gen_facade_shift_operators :
     ∧ (∀ (fuel : Nat) (BITS LIMBS : Nat) (self : List Nat) (n : Nat),
         Ruint.Gen.nt_PrimInt_unsigned_shr fuel BITS LIMBS self n = Ruint.Gen.uint_wrapping_shr fuel BITS LIMBS self n) :=
   ⟨fun _ _ _ _ _ => rfl, fun _ _ _ _ _ => rfl, fun _ _ _ _ _ => rfl⟩
+
+/-- `res.ok()`. -/
+def okOpt {ε α : Type} : Except ε α → Option α
+  | .ok v => some v
+  | .error _ => none
+
+/-- `ToPrimitive::to_{i64,u64,i128,u128}`: `self.try_into().ok()` — the `TryFrom<&Uint> for T` impl of the target type (tied to
+    the C07 models by `C07.gen_to_int_eq` / `gen_to_128_eq`); `FromPrimitive::from_{i64,u64,i128,u128}`: `Self::try_from(n).ok()` —
+    the `TryFrom<T> for Uint` impl of the source type (`C07.gen_try_from_u64_eq`, `gen_try_from_signed_eq`, …), its panic (`none`,
+    the `from_limbs` assert — unreachable, C07) passed on. -/
+theorem gen_facade_primitive_casts :
+    (∀ (fuel BITS LIMBS : Nat) (self : List Nat),
+        Ruint.Gen.nt_ToPrimitive_to_i64 fuel BITS LIMBS self = okOpt (Ruint.Gen.i64_try_from_uint fuel BITS LIMBS self))
+    ∧ (∀ (fuel BITS LIMBS : Nat) (self : List Nat),
+        Ruint.Gen.nt_ToPrimitive_to_u64 fuel BITS LIMBS self = okOpt (Ruint.Gen.u64_try_from_uint fuel BITS LIMBS self))
+    ∧ (∀ (fuel BITS LIMBS : Nat) (self : List Nat),
+        Ruint.Gen.nt_ToPrimitive_to_i128 fuel BITS LIMBS self = okOpt (Ruint.Gen.i128_try_from_uint fuel BITS LIMBS self))
+    ∧ (∀ (fuel BITS LIMBS : Nat) (self : List Nat),
+        Ruint.Gen.nt_ToPrimitive_to_u128 fuel BITS LIMBS self = okOpt (Ruint.Gen.u128_try_from_uint fuel BITS LIMBS self))
+    ∧ (∀ (BITS LIMBS n : Nat),
+        Ruint.Gen.nt_FromPrimitive_from_i64 BITS LIMBS n = (Ruint.Gen.uint_try_from_i64 BITS LIMBS n).map okOpt)
+    ∧ (∀ (BITS LIMBS n : Nat),
+        Ruint.Gen.nt_FromPrimitive_from_u64 BITS LIMBS n = (Ruint.Gen.uint_try_from_u64 BITS LIMBS n).map okOpt)
+    ∧ (∀ (BITS LIMBS n : Nat),
+        Ruint.Gen.nt_FromPrimitive_from_i128 BITS LIMBS n = (Ruint.Gen.uint_try_from_i128 BITS LIMBS n).map okOpt)
+    ∧ (∀ (BITS LIMBS n : Nat),
+        Ruint.Gen.nt_FromPrimitive_from_u128 BITS LIMBS n = (Ruint.Gen.uint_try_from_u128 BITS LIMBS n).map okOpt) := by
+  refine ⟨?_, ?_, ?_, ?_, ?_, ?_, ?_, ?_⟩ <;> intros <;>
+    simp only [Ruint.Gen.nt_ToPrimitive_to_i64, Ruint.Gen.nt_ToPrimitive_to_u64, Ruint.Gen.nt_ToPrimitive_to_i128,
+      Ruint.Gen.nt_ToPrimitive_to_u128, Ruint.Gen.nt_FromPrimitive_from_i64, Ruint.Gen.nt_FromPrimitive_from_u64,
+      Ruint.Gen.nt_FromPrimitive_from_i128, Ruint.Gen.nt_FromPrimitive_from_u128] <;>
+    (split <;> simp_all [okOpt]) <;> (try (split <;> simp_all [okOpt]))
 
 end Ruint.C20
